@@ -27,6 +27,34 @@
 #include <uint256.h>
 #include <util/golombrice.h>
 #include <cstring>
+#include <chrono>
+#include <future>
+#include <memory>
+#include <sys/resource.h>
+#include <thread>
+#include <unistd.h>
+
+// Runs f in a helper thread with a time limit (the whole process has an address-space limit, see main):
+// a case on which the implementation does not terminate (e.g. an astronomically long unary Golomb
+// quotient) is reported as "HANG"; the remaining cases are answered "SKIPPED-after-hang" and the
+// process exits, so the run still yields one line per case and a failing input.
+template <typename F>
+static std::string guarded(F f, int seconds)
+{
+    auto prom = std::make_shared<std::promise<std::string>>();
+    auto fut = prom->get_future();
+    std::thread([prom, f]() {
+        std::string out;
+        try { out = f(); } catch (const std::bad_alloc&) { out = "HANG"; } catch (const std::exception& e) { out = std::string("EXC ") + e.what(); }
+        prom->set_value(out);
+    }).detach();
+    if (fut.wait_for(std::chrono::seconds(seconds)) == std::future_status::ready) return fut.get();
+    std::cout << "HANG\n";
+    std::string l;
+    while (std::getline(std::cin, l)) std::cout << "SKIPPED-after-hang\n";
+    std::cout.flush();
+    _exit(0);
+}
 
 static uint256 u256(const std::string& h)
 {
@@ -66,6 +94,8 @@ static std::string bloom_ops(F& f, const std::vector<std::string>& w, size_t fro
 
 int main()
 {
+    struct rlimit rl{(rlim_t)4 << 30, (rlim_t)4 << 30};
+    setrlimit(RLIMIT_AS, &rl);
     return vd::main_loop([&](const std::vector<std::string>& w, const std::string&) -> std::string {
         if (w.empty()) return "BADCASE";
         if (w[0] == "pmt" && w.size() >= 3) {
@@ -154,7 +184,7 @@ int main()
             if (r.empty()) r = "-";
             return vd::hex(out) + " " + r;
         }
-        if (w[0] == "gcs" && w.size() >= 6) {
+        if (w[0] == "gcs" && w.size() >= 6) return guarded([&]() -> std::string {
             GCSFilter::Params params(vd::ull(w[3]), vd::ull(w[4]), (uint8_t)vd::ull(w[1]), (uint32_t)vd::ull(w[2]));
             size_t ne = vd::ull(w[5]);
             GCSFilter::ElementSet els, qs;
@@ -177,7 +207,7 @@ int main()
             if (again.empty()) again = "-";
             if (again != me) return "MISMATCH-after-decode";
             return vd::hex(f.GetEncoded()) + " " + me + " " + mq + " " + (f.MatchAny(qs) ? "1" : "0");
-        }
+        }, 40);
         return "BADCASE";
     });
 }
